@@ -149,3 +149,60 @@ def scenes3d_contested(ctx, d):
 @CHECK.given("scenes2d", lambda tier: M.match_cases2d(tier), quick=250, thorough=12000)
 def scenes2d(ctx, d):
     _check(ctx, d)
+
+
+# ---- through the manager: add_frame_result(...).object_results ------------------------------------
+
+
+def _manager_cases(tier):
+    from vlib import mgrlib as MG
+
+    return MG.manager_cases(tier, max_frames=2)
+
+
+@CHECK.given("manager_frames", _manager_cases, quick=90, thorough=4000)
+def manager_frames(ctx, d):
+    """The same validity predicate on what a caller of the manager sees (after the manager's and the critical filter)."""
+    from vlib import mgrlib as MG
+    from vlib import ref_geom as G  # noqa: F401
+
+    run = MG.run_case(ctx, d)
+    if run is None:
+        return
+    fpv = d["task"] == "fp_validation"
+    nt = False
+    for i, f in enumerate(d["frames"]):
+        res = run["results"][i]
+        ests, gts = run["est_lists"][i], run["gt_frames"][i].objects
+        used_e, used_g = set(), set()
+        for r in res.object_results:
+            a = MG.index_of(r.estimated_object, ests)
+            ctx.require(a is not None and a not in used_e, "manager:estimate-not-from-input-or-twice", f"frame {i}: estimate index {a}")
+            used_e.add(a)
+            g = r.ground_truth_object
+            if g is None:
+                ctx.require(not fpv, "manager:fpv-unpaired-kept", f"frame {i}: FP validation kept the unpaired estimate #{a}")
+                continue
+            b = MG.index_of(g, gts)
+            ctx.require(b is not None and b not in used_g, "manager:gt-not-from-input-or-twice", f"frame {i}: GT index {b} (estimate #{a})")
+            used_g.add(b)
+            ctx.require(r.estimated_object.frame_id == g.frame_id, "manager:pair-across-frames", f"frame {i}")
+            if a is None or b is None:
+                continue
+            rad = d["mgr"].get("radii")
+            gl = f["gt"][b]["label"]
+            if rad is not None and gl in d["targets"]:
+                import math
+
+                dist = math.dist(f["est"][a]["p"], f["gt"][b]["p"])
+                lim = rad[d["targets"].index(gl)]
+                if abs(dist - lim) <= MARGIN:
+                    ctx.boundary()
+                else:
+                    nt = True
+                    ctx.require(dist < lim, "manager:pair-outside-radius", lambda: f"frame {i} ({d['frame']}): estimate #{a} paired with GT #{b} at {dist} >= max_matchable_radii {lim}")
+        if fpv:
+            nt = True
+    ctx.cls("task_" + d["task"])
+    ctx.cls("frame_" + d["frame"])
+    ctx.mark_nontrivial(nt)
